@@ -802,6 +802,7 @@ func returnsOf(fn *ssa.Function) []*ssa.Return {
 type fact struct {
 	V     ssa.Value // atomic condition (not a NOT, not a boolean phi)
 	Truth bool
+	X     ssa.Value // nearPathFacts only: V is a comparison whose left operand, a phi, is this value on the path
 }
 
 // condImplies decomposes "cond evaluates to val" into atomic facts. Boolean
@@ -838,7 +839,7 @@ func condImplies(cond ssa.Value, val bool, depth int, out *[]fact) {
 		}
 		// not decomposable: the phi itself is the atom
 	}
-	*out = append(*out, fact{cond, val})
+	*out = append(*out, fact{V: cond, Truth: val})
 }
 
 func factsAt(b *ssa.BasicBlock) []fact { return factsAtDepth(b, 0) }
@@ -1228,4 +1229,208 @@ func feasiblyReaches(from *ssa.BasicBlock, init map[ssa.Value]vfact, target *ssa
 	}
 	walk(from, f0, 0)
 	return found
+}
+
+// ---------------------------------------------------------------------------
+// Near path facts: what is known at an instruction on each way into it, value correlations included.
+//
+// factsAt knows only the branch outcomes that dominate a block. A guard written at the value level
+//
+//	ttl := 0; switch { case !weighted: ttl = 1000; case timeout > 0: ttl = timeout }; if ttl > 0 { insert }
+//
+// or as a disjunction (`if !weighted || lifetime > 0`) dominates nothing useful. nearPathFacts enumerates the acyclic
+// paths from a dominator H of the instruction's block to that block (H is pushed up the dominator tree as long as the
+// region stays acyclic and the number of paths stays below max), resolves every phi of the region to the operand
+// selected by the path, evaluates conditions that became constant (pruning the infeasible paths) and returns, per
+// feasible path, the facts that dominate H plus the outcomes taken on the path. A fact whose left operand was a phi
+// resolved on the path carries the resolved operand in X.
+func nearPathFacts(site ssa.Instruction, max int) [][]fact {
+	tb := site.Block()
+	region := func(h *ssa.BasicBlock) (map[*ssa.BasicBlock]bool, bool) {
+		// blocks on some path h -> tb; acyclic?
+		fromH := reachable(h, nil)
+		in := map[*ssa.BasicBlock]bool{}
+		for b := range fromH {
+			if b == tb || reachable(b, nil)[tb] {
+				if h.Dominates(b) {
+					in[b] = true
+				}
+			}
+		}
+		in[h] = true
+		// a cycle inside the region?
+		for b := range in {
+			if b == tb {
+				continue
+			}
+			for _, s := range b.Succs {
+				if in[s] && (s == b || s.Dominates(b)) {
+					return in, false
+				}
+			}
+		}
+		return in, true
+	}
+	type pathRes struct {
+		facts []fact
+	}
+	enumerate := func(h *ssa.BasicBlock, in map[*ssa.BasicBlock]bool) ([][]fact, bool) {
+		var out [][]fact
+		ok := true
+		res := map[*ssa.Phi]ssa.Value{}
+		resolve := func(v ssa.Value) ssa.Value {
+			for i := 0; i < 8; i++ {
+				u := unwrap(v)
+				if phi, isPhi := u.(*ssa.Phi); isPhi {
+					if r, known := res[phi]; known {
+						v = r
+						continue
+					}
+				}
+				return v
+			}
+			return v
+		}
+		var evalCond func(cond ssa.Value, val bool, cur *[]fact) bool // false: infeasible
+		evalCond = func(cond ssa.Value, val bool, cur *[]fact) bool {
+			switch x := cond.(type) {
+			case *ssa.UnOp:
+				if x.Op == token.NOT {
+					return evalCond(x.X, !val, cur)
+				}
+			case *ssa.Phi:
+				if r, known := res[x]; known {
+					if k, isK := r.(*ssa.Const); isK && k.Value != nil {
+						return (k.Value.String() == "true") == val
+					}
+					return evalCond(r, val, cur)
+				}
+			case *ssa.BinOp:
+				rx, ry := resolve(x.X), resolve(x.Y)
+				kx, okx := constInt(rx)
+				ky, oky := constInt(ry)
+				if okx && oky {
+					var t bool
+					switch x.Op {
+					case token.GTR:
+						t = kx > ky
+					case token.GEQ:
+						t = kx >= ky
+					case token.LSS:
+						t = kx < ky
+					case token.LEQ:
+						t = kx <= ky
+					case token.EQL:
+						t = kx == ky
+					case token.NEQ:
+						t = kx != ky
+					default:
+						*cur = append(*cur, fact{V: cond, Truth: val})
+						return true
+					}
+					return t == val
+				}
+				if rx != x.X {
+					*cur = append(*cur, fact{V: cond, Truth: val, X: rx})
+					return true
+				}
+			}
+			condImplies(cond, val, 0, cur)
+			return true
+		}
+		base := factsAt(h)
+		var walk func(b, prev *ssa.BasicBlock, cur []fact)
+		walk = func(b, prev *ssa.BasicBlock, cur []fact) {
+			if !ok {
+				return
+			}
+			var set []*ssa.Phi
+			if prev != nil {
+				idx := -1
+				for i, p := range b.Preds {
+					if p == prev {
+						idx = i
+					}
+				}
+				// parallel assignment: resolve every operand before binding
+				var vals []ssa.Value
+				for _, in := range b.Instrs {
+					phi, isPhi := in.(*ssa.Phi)
+					if !isPhi {
+						break
+					}
+					set = append(set, phi)
+					vals = append(vals, resolve(phi.Edges[idx]))
+				}
+				for i, phi := range set {
+					res[phi] = vals[i]
+				}
+			}
+			defer func() {
+				for _, phi := range set {
+					delete(res, phi)
+				}
+			}()
+			if b == tb {
+				if len(out) >= max {
+					ok = false
+					return
+				}
+				out = append(out, append(append([]fact{}, base...), cur...))
+				return
+			}
+			iff, isIf := b.Instrs[len(b.Instrs)-1].(*ssa.If)
+			for i, s := range b.Succs {
+				if !in[s] {
+					continue
+				}
+				n := len(cur)
+				feasible := true
+				if isIf && len(b.Succs) == 2 && b.Succs[0] != b.Succs[1] {
+					feasible = evalCond(iff.Cond, i == 0, &cur)
+				}
+				if feasible {
+					walk(s, b, cur)
+				}
+				cur = cur[:n]
+			}
+		}
+		if h == tb {
+			return [][]fact{base}, true
+		}
+		walk(h, nil, nil)
+		return out, ok
+	}
+	best := [][]fact{factsAt(tb)}
+	h := tb
+	for steps := 0; steps < 12; steps++ {
+		cand := h.Idom()
+		if cand == nil {
+			break
+		}
+		in, acyclic := region(cand)
+		if !acyclic {
+			break
+		}
+		paths, ok := enumerate(cand, in)
+		if !ok {
+			break
+		}
+		h = cand
+		best = paths
+	}
+	return best
+}
+
+// factOperands returns the comparison a fact is about, with the left operand as resolved on the path (see nearPathFacts).
+func factOperands(f fact) (op token.Token, x, y ssa.Value, ok bool) {
+	b, isBin := f.V.(*ssa.BinOp)
+	if !isBin {
+		return 0, nil, nil, false
+	}
+	x = b.X
+	if f.X != nil {
+		x = f.X
+	}
+	return b.Op, x, b.Y, true
 }
